@@ -447,6 +447,11 @@ func writePairwiseAlignment(p string, w int, cPair chan alignPair, cWriteDone ch
 // optionally including the reference sequence and insertions relative to it, optionally trimmed to coordinates in (degapped-)reference space
 func ToPairAlign(samIn, ref io.Reader, outpath string, wrap int, trimStart int, trimEnd int, omitRef bool, omitIns bool, threads int) error {
 
+	// a worker pool needs at least one worker (--threads 0 used to hang, negative values to panic)
+	if threads < 1 {
+		threads = 1
+	}
+
 	// NB probably uncomment the below and use it for checks (e.g. for
 	// reference length)
 	// samHeader, err := getSamHeader(samFile)
